@@ -54,6 +54,7 @@ structure E where
   port : Nat := 0
   peer : Bool := false                -- accepted conn: the real client is still there
   real : Bool := false                -- a real socket (no shim view of its registration)
+  cio : Bool := false                 -- the dial's success callback closes the conn
 
 structure DS where
   mode : String := "lt"
@@ -213,7 +214,11 @@ def event (d : DS) (id : Nat) (fl : Flags) (ans : List KAns) : DS × String :=
         if e.c.dial == .pending then
           -- writability of a dialing socket: the kernel has a verdict (nothing scripted = connected)
           let d := if e.c.kres.isNone then stepE d id (.kconnect none) else d
-          settle (stepE d id .dialed) id
+          let d := settle (stepE d id .dialed) id
+          -- a success callback that closes the conn: the dial is over, the close path reports nothing more
+          match d.get id with
+          | some e1 => if e1.cio && e1.c.dialOk > e.c.dialOk then closeE d id .nil else d
+          | none => d
         else if e.c.closed || e.c.q.isEmpty then d
         else
           let (q, failed) := flushQ 64 e.c.q ans
@@ -261,7 +266,7 @@ partial def loop (h : IO.FS.Stream) (d : DS) : IO Unit := do
     else bad
   | _ =>
     if d.stopped then bad else
-    if d.small && ["addc", "addx", "addcr", "addudp", "dialx", "dialrace", "acc", "rdial", "hupbusy", "dgram"].contains (ws.headD "") then bad else
+    if d.small && ["addc", "addx", "addcr", "addudp", "dialx", "dialc", "dialrace", "acc", "rdial", "hupbusy", "dgram"].contains (ws.headD "") then bad else
     match ws with
     | ["add", id, typ] =>
       if d.small then
@@ -361,6 +366,14 @@ partial def loop (h : IO.FS.Stream) (d : DS) : IO Unit := do
         -- a dial timeout is waited for inside the op: the timer that is armed fires
         let d := if kind == "inprog" && ms.toNat! > 0 then settle (stepE d id .timerW) id else d
         say d "dial" "nil" (some id)
+    | ["dialc", id, kind, ms] =>
+      let id := id.toNat!
+      if (d.get id).isSome || !(kind == "inprog" || kind == "now") || ms != "0" then bad else
+      let d := newE d { id, c := mk .dial, cio := true } .dial
+      if kind == "now" then
+        -- the success callback runs from the engine's async queue, inside the op
+        say (closeE (stepsE d id [.dialNow, .armDial]) id .nil) "dial" "nil" (some id)
+      else say (stepsE d id [.dialStart, .armDial]) "dial" "nil" (some id)
     | ["dev", id, fl, so] =>
       match d.get id.toNat!, parseFlags fl with
       | some e, some fl =>
